@@ -151,26 +151,22 @@ def run(ctx):
            and 'antenna_source' in ast.unparse(e.data['recv_node'])]
     ctx.require(len(req) == 1, 'collect_data_block: the per-sub-block request to the antenna source was not found')
     nsamp = req[0].data['args'][1]
-    carried = {a.args[0] for a in T.all_atoms(nsamp).values() if a.kind == 'loopvar'}
-    ctx.ob('AGREE', 'the request length depends on exactly one loop-carried quantity (the window count of the sub-block)', cdb,
-           len(carried) == 1, {'request': pretty(nsamp)[:300]}, node=req[0].node, construct='antenna_source.get_samples(...) [window count]')
     so = T.mk_attr(T.mk_attr(sym('self'), 'antenna_source'), 'start_obs')
-
-    def with_W(t):
-        """name the (loop-carried, possibly shortened) window count W as one integer symbol"""
-        cands = [a for a in T.all_atoms(t).values() if a.kind == 'loopvar']      # the one loop-carried local the length depends on
-        t2 = t
-        # the conditional choice between the regular and the shortened last window count is replaced as a whole
-        for a in sorted(T.all_atoms(t).values(), key=lambda x: -len(x.key)):
-            if a.kind == 'ite' and any(c.key in T.all_atoms(Term.of(a)) for c in cands):
-                t2 = T.subst(t2, lambda x, a=a: sym('Wn') if x.key == a.key else None)
-        return T.subst(t2, lambda x: sym('Wn') if x.kind == 'loopvar' else None)
     TB = ctx.spec(cdb, 'self.num_taps * self.num_branches', I=ctx.interp(expand=False))
     Tt = ctx.spec(cdb, 'self.num_taps', I=ctx.interp(expand=False))
-    n1 = with_W(T.assume(nsamp, {so.key: True}))
-    n2 = with_W(T.assume(nsamp, {so.key: False}))
+
+    def named(t):
+        """a window count that is still an opaque loop-carried local is named as one integer symbol"""
+        return T.subst(t, lambda x: sym('Wn') if x.kind == 'loopvar' else None)
+    n1 = named(T.assume(nsamp, {so.key: True}))
+    n2 = named(T.assume(nsamp, {so.key: False}))
+    # the window count W of the sub-block is what the first request asks for, in units of one window (taps x branches samples)
+    W1 = n1 / TB
+    ctx.ob('AGREE', 'the first request of an observation is a whole number W of windows (num_taps*num_branches samples each)', cdb,
+           T.is_integer(W1), {'request': pretty(nsamp)[:300], 'windows': pretty(W1)[:200]}, node=req[0].node,
+           construct='antenna_source.get_samples(...) [window count]')
     spectra = lambda length: (T.mk_call('floor', [length / TB]) - 1) * Tt        # rows produced by the PFB front end (C08-D2)
-    want_rows = Tt * (sym('Wn') - 1)
+    want_rows = Tt * (W1 - 1)
     ctx.formula('AGREE', 'first request of an observation: W windows in, (W-1)*num_taps spectra out (one warm-up window)', cdb,
                 spectra(n1), want_rows, node=req[0].node, construct='antenna_source.get_samples(...) [first request]')
     ctx.formula('AGREE', 'later requests: (W-1) windows plus the cached window give (W-1)*num_taps spectra', cdb,
